@@ -48,6 +48,7 @@ type Verifier struct {
 	axiomsReady    bool
 	tier           string
 	embedded       []string // files embedded by go:embed directives, relative to their package directory
+	embeddedAbs    map[string]string
 }
 
 type axiomTerm struct {
@@ -118,6 +119,10 @@ func NewVerifier(repo, verifDir string) (*Verifier, error) {
 			dir := filepath.Dir(p.GoFiles[0])
 			if rel, err := filepath.Rel(dir, ef); err == nil {
 				v.embedded = append(v.embedded, rel)
+				if v.embeddedAbs == nil {
+					v.embeddedAbs = map[string]string{}
+				}
+				v.embeddedAbs[rel] = ef
 			}
 		}
 	}
